@@ -98,6 +98,24 @@ def run_scenario(sc: dict[str, Any]) -> dict[str, Any]:
                     return Plan(pre=sc['plat'])
                 return None
             sim.srv.policy = lpolicy
+        # (observed from outside: the instant at which the processing of a changed view resets the idle period of the object's timers)
+        from kopf._core.engines import daemons as kdaemons
+        orig_setattr = kdaemons.DaemonsMemory.__setattr__
+
+        def rec_setattr(self_, k_, v_):
+            orig_setattr(self_, k_, v_)
+            if k_ == 'idle_reset_time' and 'forever_stopped' in self_.__dict__:      # (not the construction of the memory)
+                sim.rec('t.idlereset')
+        kdaemons.DaemonsMemory.__setattr__ = rec_setattr
+        from kopf._core.actions import execution as kexec
+        orig_once = kexec.execute_handlers_once
+
+        async def once(*a_, **k_):
+            if any(getattr(h_, 'id', None) == 'tick' for h_ in (k_.get('handlers') or [])):
+                sim.rec('t.decide')
+            return await orig_once(*a_, **k_)
+        kexec.execute_handlers_once = once
+        state['restore'] = lambda: (setattr(kdaemons.DaemonsMemory, '__setattr__', orig_setattr), setattr(kexec, 'execute_handlers_once', orig_once))
         op = sim.operator('op1', reg, sim.settings(watching__reconnect_backoff=1))      # whole seconds also when a stream is reopened
         t0 = 1
         labels0 = dict({'tm': 'yes'} if toggles else {}, **({'sb': 'yes'} if sc.get('sibling') else {}))
@@ -149,20 +167,42 @@ def run_scenario(sc: dict[str, Any]) -> dict[str, Any]:
         for e in sim.recorder.events:
             if e['ev'] == 'srv.write' and e.get('how') == 'delete-mark': del_rv = e['rv']
         pending = None
+        pending_change = None; reported_edits: set[int] = set(); decided = None
         for e in sim.recorder.events:
             ev = e['ev']
-            if ev == 't.start':
+            if ev == 't.decide':
+                # the instant at which the framework decides to call the function (a thread's function is entered a few loop cycles later:
+                # what lands in between -- a change that resets the idle period -- was not there to be seen)
+                decided = {'ev': 'start', 't': e['t'], '_open': True}
+                out.append(decided)
+            elif ev == 't.start':
                 lat = sc['plat'] if sc.get('plat') and sc.get('result') and e['k'] == 'ok' else 0
                 pending = {'ev': 'start', 't': e['t'], 'retry': e['retry'], 'dur': e['dur'] + lat, 'k': e['k'], 'd': e['d']}
-                out.append(pending)
+                if decided is not None and decided.get('_open'):
+                    decided.pop('_open'); decided.update({k_: v_ for k_, v_ in pending.items() if k_ != 't'}); pending = decided; decided = None
+                else:
+                    out.append(pending)
             elif ev == 't.end':
                 lat = sc['plat'] if sc.get('plat') and sc.get('result') and e['k'] == 'ok' else 0
                 out.append({'ev': 'end', 't': e['t'] + lat})
             elif ev == 't.patchfail':
                 out.append({'ev': 'patchfail', 't': e['t']})
+            elif ev == 't.idlereset':
+                # the instant at which the change becomes visible to the timer (its idle period is counted from here): the `change` of the view
+                # that is being processed is placed HERE, not at the start of that processing -- a timer that looked in between has not seen it
+                if pending_change is not None:
+                    out.append({'ev': 'change', 't': e['t']}); pending_change = None
+            elif ev == 'q.proc.end' and e.get('res') == 'things':
+                if pending_change is not None:      # (the processing never told the timer: the model will say what it thinks of that)
+                    out.append({'ev': 'change', 't': pending_change}); pending_change = None
             elif ev == 'q.proc.begin' and e.get('res') == 'things':
                 rv = int(e['rv'])
-                if rv in edit_rvs: out.append({'ev': 'change', 't': e['t']})
+                if pending_change is not None:
+                    out.append({'ev': 'change', 't': pending_change}); pending_change = None
+                # a user's change is in this view if the view is as new as the edit or newer (a re-listing may show the edit under a later version)
+                fresh_edits = [r for r in edit_rvs if r <= rv and r not in reported_edits]
+                if fresh_edits:
+                    reported_edits.update(fresh_edits); pending_change = e['t']
                 elif not sc.get('change_handlers', True) and rv != del_rv and e.get('type') not in (None, 'ADDED', 'DELETED'):
                     out.append({'ev': 'selfchange', 't': e['t']})          # an event that is not a user's change (the echo of an own patch)
                 if del_rv is not None and rv == del_rv: out.append({'ev': 'stop', 't': e['t']})
@@ -171,6 +211,7 @@ def run_scenario(sc: dict[str, Any]) -> dict[str, Any]:
             elif ev == 'quiet':
                 out.append({'ev': 'quiet', 't': e['t']})
                 break        # what follows is the harness stopping the operator (a running function is cancelled)
+        out = [e_ for e_ in out if not e_.get('_open')]      # (a decision whose function was never entered: the run ended there)
         if sc.get('plat'):       # a run whose PATCH is still under way when the history ends has not ended
             tq = next((e['t'] for e in out if e['ev'] == 'quiet'), None)
             if tq is not None:
@@ -178,6 +219,7 @@ def run_scenario(sc: dict[str, Any]) -> dict[str, Any]:
                 out = [e for e in out if e['ev'] != 'quiet'] + [e for e in out if e['ev'] == 'quiet']
         return {'id': sc['id'], 'conf': c, 't0': t0, 'events': out, 'stall': stall, 'scenario': sc}
     finally:
+        if 'state' in dir() and state.get('restore'): state['restore']()
         sim.close()
 
 
